@@ -12,6 +12,36 @@ CHECKS = {
         note="Trusted: vlib/opcx.py (independent reader, RFC 3986 resolution, OPC content-type resolution), lxml C14N for XML equivalence. Generated inputs are self-checked to satisfy the statement's precondition; rejected ones are counted, never judged.",
         design="§3 C01",
     ),
+    "C02": dict(
+        technique="runtime monitoring: seeded API histories on the real objects with a save after every step; offline checker (independent zipfile+lxml OPC reader) applying the closure rules to every saved file relative to the opened input; re-open and semantic snapshot comparison",
+        text="208 (quick) / 8 000 (thorough) histories of 10-40 operations (every relationship-creating/-dropping op of the public API, rejected calls, reads, re-open-and-continue) over the default template, 67 corpus decks and manufactured decks with gapped/out-of-order slide part names; ~2 500 / ~3e5 saves each checked for unique members, one resolvable content type per part equal to the in-memory part's type, no dangling internal relationship, no r:* reference without a relationship, office-document relationship to a presentation main part, no unreachable part written, every in-memory part present; each save re-opened and compared with the in-memory presentation through public readers.",
+        note="Trusted: vlib/opcx.py; python-pptx's own readers for the re-open comparison (as the statement words it). Histories abandoned on an undocumented exception are counted (by op and exception) and make the run inconclusive above 20%.",
+        design="§3 C02, Appendix B",
+    ),
+    "C03": dict(
+        technique="runtime monitoring: seeded API histories on the real objects; libxml2 validation of every changed XML part against the shipped ISO 29500-4 schemas after every operation, judged relative to the part's baseline (online checker)",
+        text="256 (quick) / 10 000 (thorough) histories over the default template, all 67 corpus decks and manufactured decks, profile of ~35 XML-mutating operation kinds with arguments across their documented domains incl. out-of-domain values (rejected calls); ~2 000 / ~3e5 part re-validations; new validator messages are violations keyed by operation + location + kind.",
+        note="Trusted: libxml2, shipped XSDs, the 40-line markup-compatibility preprocessor (vlib/xsdkit.py). Bounded by the interpreter's repertoire (vlib/ops.py; per-op counts in the evidence). Parts without a shipped schema are skipped and counted.",
+        design="§3 C03, Appendix B",
+    ),
+    "C04": dict(
+        technique="runtime monitoring: exhaustive + seeded string workload through the five real text setters against a reference model; structure read by the harness's own XPath; stored text reconstructed from the saved zip by an independent parser; save/re-open cycles",
+        text="All 820 strings of length <= 3 over a 9-symbol alphabet plus 1 500 (quick) / 40 000 (thorough) class-biased random strings x 5 assignment levels x 6 prior body states, 1-3 save/re-open cycles; read-back vs model, a:p/a:br/a:r structure, pPr preservation, independent reconstruction from the saved slide XML, schema validity as side monitor.",
+        note="Trusted: the 11-line reference model written from the statement; lxml plain parser. Characters outside the XML Char production are outside the domain.",
+        design="§3 C04",
+    ),
+    "C06": dict(
+        technique="runtime monitoring: postcondition wrappers on the real id/name allocators (M-ID) + id model read from the XML by XPath after every operation of addition-only histories over adversarial id states; saved slide part names checked by the independent reader",
+        text="400 (quick) / 15 000 (thorough) addition-only histories (slides, every shape kind, nested groups, freeforms, pictures, charts, movies, OLE, notes, hyperlinks, turbo-add on/off) from 8 classes of injected id state (gaps, ids up to 2^31, duplicates, @id on p:cTn, non-numeric @id, slide ids at the bounds): allocator results fresh and in range, no new duplicate shape id, slide ids unique/in range/unchanged, rIds not reassigned while in use, part names unique, handles stable, slide parts named slide1..n in order after .slides access.",
+        note="Trusted: XPath over the live XML; wrappers run in the calling thread around the real allocators. The icon picture nested in p:oleObj (id=0 by convention) is outside the id model.",
+        design="§3 C06",
+    ),
+    "C12": dict(
+        technique="runtime monitoring: read-only traversals of the real object model in seeded order/repetition with intermediate saves; offline checker comparing the canonical part graph (by relationship path, XML C14N after removing void containers) of the traversed save with a straight open/save",
+        text="67 corpus decks + 48 (quick) / 2 000 (thorough) generated decks x 1 / 30 traversal orders x {basic accessors of the statement, + formatting readers}; ~160 distinct accessors exercised (listed in the evidence reach table); any part that appears, disappears or changes beyond the tolerated class is a violation keyed by the first differing element.",
+        note="Trusted: vlib/opcx.py; the tolerated class (void formatting containers, empty text body = absent) is spelled out in props/c12.py and DESIGN.md. Accessors documented as creating content are not in these passes.",
+        design="§3 C12",
+    ),
     "C10": dict(
         technique="runtime monitoring: exhaustive execution of the real inserter/adder/get-or-add/change-to/remove methods over schema-derived sibling contexts; libxml2 validation of a structure-only copy of the shipped XSDs as the postcondition oracle",
         text="All 196 registered tags x their schema types x the 328 child declarations recovered from the real classes at run time; ~3e4 sibling contexts (single other child both orders, all later, all earlier, all permitted per choice alternative, every ordering of two kinds in repeatable mixed content; all pairs in thorough), each self-checked, ~1e5 method executions validated. Exhaustive over the declared context families, not over all sibling multisets.",
